@@ -209,6 +209,10 @@ impl MqttState {
         &mut self,
         mut packet: Incoming,
     ) -> Result<Option<Packet>, StateError> {
+        // the user gets a publish with the topic its alias stands for
+        if let Incoming::Publish(publish) = &mut packet {
+            self.resolve_topic_alias(publish);
+        }
         self.events.push_back(Event::Incoming(packet.to_owned()));
 
         let outgoing = match &mut packet {
@@ -230,6 +234,23 @@ impl MqttState {
 
         self.last_incoming = Instant::now();
         Ok(outgoing)
+    }
+
+    /// Records the alias of a publish that carries a topic, fills in the topic of a
+    /// publish that carries only a known alias
+    fn resolve_topic_alias(&mut self, publish: &mut Publish) {
+        let topic_alias = match &publish.properties {
+            Some(props) => props.topic_alias,
+            None => None,
+        };
+
+        if let Some(alias) = topic_alias {
+            if !publish.topic.is_empty() {
+                self.topic_alises.insert(alias, publish.topic.clone());
+            } else if let Some(topic) = self.topic_alises.get(&alias) {
+                topic.clone_into(&mut publish.topic);
+            }
+        }
     }
 
     pub fn handle_protocol_error(&mut self) -> Result<Option<Packet>, StateError> {
@@ -320,16 +341,10 @@ impl MqttState {
             None => None,
         };
 
-        if !publish.topic.is_empty() {
-            if let Some(alias) = topic_alias {
-                self.topic_alises.insert(alias, publish.topic.clone());
-            }
-        } else if let Some(alias) = topic_alias {
-            if let Some(topic) = self.topic_alises.get(&alias) {
-                topic.clone_into(&mut publish.topic);
-            } else {
-                self.handle_protocol_error()?;
-            };
+        self.resolve_topic_alias(publish);
+        if publish.topic.is_empty() && topic_alias.is_some() {
+            // the broker never established this alias
+            return self.handle_protocol_error();
         }
 
         match qos {
